@@ -140,7 +140,7 @@ Ltac done_step H :=
   unfold client_handle_hello, client_handle_encrypted_extensions, client_handle_certificate_request,
     client_handle_certificate, client_handle_certificate_verify, client_handle_finished,
     client_handle_new_session_ticket, server_handle_hello, server_handle_certificate,
-    server_handle_certificate_verify, server_handle_finished, parsed, set_state in H;
+    server_handle_certificate_verify, server_handle_finished, check_cv, parsed, set_state in H;
   cbn [s_state s_resumed s_kpsk s_kproxy s_creq] in H;
   brk H; inversion H; subst; clear H; unfold push; cbn [is_ok].
 
